@@ -315,7 +315,8 @@ def run_refusals(spec, rec):
             f.datatype = 'ST' if w.rows[rep].datatype != 'ST' else 'NM'
         probes.append(('datatype-override-setter', dt_set))
         for dt, bad in (('NM', 'abc'), ('SI', 'x'), ('DT', '20201340'), ('TM', '2500'), ('DTM', 'bad'), ('ST', 'x' * 1000),
-                        ('IS', 'x' * 21), ('NM', '1' * 17), ('SI', '12345'), ('TN', 'zz')):
+                        ('IS', 'x' * 21), ('NM', '1' * 17), ('SI', '12345'), ('TN', 'zz'), ('NM', '-1234567890123456'),
+                        ('NM', '123456789012345.6'), ('NM', '-12345678901234.56')):
             if dt in tables.base_datatypes(v):
                 probes.append(('invalid-or-overlong-value:%s' % dt,
                                lambda dt=dt, bad=bad: core.SubComponent(datatype=dt, value=bad, version=v,
